@@ -196,3 +196,24 @@ Example ex_mask_forms :
   /\ jsonr no_parse js_mask 5 2 [] (Some (JObj [(JStr [120], JNum [50])])) = JReject
   /\ jsonr no_parse js_mask 5 2 [] (Some (JObj [(JStr n_f1, JNum [50]); (JStr n_f1, JNum [50])])) = JReject.
 Proof. repeat split; vm_compute; reflexivity. Qed.
+
+(** the Maybe rule does not depend on the member order: cases.testMaybe value:(Maybe int), ok:false with a value *)
+Definition js_maybe : jschema :=
+  [ (TPrim PInt, ANone);
+    (TStruct 663947899 [], AStruct false false []);
+    (TStruct 1067224824 [mkField 0 true None []], AStruct false true [mkJF [] false]);
+    (TUnion [1%nat; 2%nat], AUnion false false true [mkVN [114] [114]; mkVN [116] [116]]);
+    (TStruct 3596625427 [mkField 3 false None []], AStruct false false [mkJF s_value false]) ].
+
+Example ex_maybe_both_orders :
+  wf_jschema js_maybe = true
+  /\ jsonr no_parse js_maybe 6 4 [] (Some (JObj [(JStr s_value, JObj [(JStr s_ok, JBool false); (JStr s_value, JNum [49])])])) = JReject
+  /\ jsonr no_parse js_maybe 6 4 [] (Some (JObj [(JStr s_value, JObj [(JStr s_value, JNum [49]); (JStr s_ok, JBool false)])])) = JReject
+  /\ jsonr no_parse js_maybe 6 4 [] (Some (JObj [(JStr s_value, JObj [(JStr s_value, JNum [49]); (JStr s_ok, JBool true)])]))
+     = JOk (VStruct [Some (VUnion 1 [Some (VNum 1)])])
+  (* the exhaustive generator of the correspondence run produces both orders *)
+  /\ In (JObj [(JStr s_value, JObj [(JStr s_value, JNum [49]); (JStr s_ok, JBool false)])])
+        (jvariants (JObj [(JStr s_value, JObj [(JStr s_ok, JBool true); (JStr s_value, JNum [49])])]))
+  /\ In (JObj [(JStr s_value, JObj [(JStr s_ok, JBool false); (JStr s_value, JNum [49])])])
+        (jvariants (JObj [(JStr s_value, JObj [(JStr s_ok, JBool true); (JStr s_value, JNum [49])])])).
+Proof. repeat split; try (vm_compute; reflexivity); vm_compute; tauto. Qed.
